@@ -56,7 +56,8 @@ class UdpFace(IpFace):
                 self.transport.sendto(data)
 
             def error_received(self, exc: Exception) -> None:
-                self.close.set_result(True)
+                if not self.close.done():
+                    self.close.set_result(True)
                 logging.getLogger(__name__).warning(exc)
 
             def connection_lost(self, exc):
@@ -66,7 +67,6 @@ class UdpFace(IpFace):
                     logging.getLogger(__name__).warning(exc)
 
         loop = aio.get_running_loop()
-        self.running = True
         close = loop.create_future()
         handler = PacketHandler(self.callback, close)
         transport, _ = await loop.create_datagram_endpoint(
@@ -75,6 +75,7 @@ class UdpFace(IpFace):
         self.handler = handler
         self.transport = transport
         self.close = close
+        self.running = True
 
     async def run(self):
         await self.close
